@@ -1,18 +1,27 @@
 package xsdtype
 
 import (
+	"regexp"
+
 	"github.com/dpb587/rdfkit-go/ontology/xsd/xsdiri"
 	"github.com/dpb587/rdfkit-go/ontology/xsd/xsdutil"
 	"github.com/dpb587/rdfkit-go/rdf"
 	"github.com/dpb587/rdfkit-go/rdf/objecttypes"
 )
 
+var hexBinaryLexicalRE = regexp.MustCompile(`^([0-9a-fA-F]{2})*$`)
+
 type HexBinary []byte
 
 var _ objecttypes.Value = HexBinary{}
 
 func MapHexBinary(lexicalForm string) (HexBinary, error) {
-	return HexBinary(xsdutil.WhiteSpaceCollapse(lexicalForm)), nil
+	lexicalForm = xsdutil.WhiteSpaceCollapse(lexicalForm)
+	if !hexBinaryLexicalRE.MatchString(lexicalForm) {
+		return nil, rdf.ErrLiteralLexicalFormNotValid
+	}
+
+	return HexBinary(lexicalForm), nil
 }
 
 func (v HexBinary) AsObjectValue() rdf.ObjectValue {
